@@ -8,6 +8,7 @@ import (
 	"github.com/cockroachdb/errors/errbase"
 	"github.com/cockroachdb/errors/errorspb"
 	"github.com/gogo/protobuf/proto"
+	pkgErr "github.com/pkg/errors"
 )
 
 // ---- leaves ---------------------------------------------------------
@@ -97,6 +98,17 @@ func (e *AsLeaf) As(target interface{}) bool {
 	}
 	return false
 }
+
+// StackSafeLeaf: a third-party style leaf that has BOTH a pkg/errors-style
+// StackTrace() method and a SafeDetails() method.
+type StackSafeLeaf struct {
+	Msg string
+	St  pkgErr.StackTrace
+}
+
+func (e *StackSafeLeaf) Error() string                 { return e.Msg }
+func (e *StackSafeLeaf) StackTrace() pkgErr.StackTrace { return e.St }
+func (e *StackSafeLeaf) SafeDetails() []string         { return []string{"stacksafe detail"} }
 
 // LOW is sometimes a leaf and sometimes a wrapper.
 type LOW struct {
